@@ -55,7 +55,8 @@ class frozenmapping(Mapping[K, V]):
 
     def __hash__(self) -> int:
         if self._hash is None:
-            self._hash = hash(tuple((k, v) for k, v in self._mapping.items()))
+            # NOTE: Mapping.__eq__ ignores the order of the items, so the hash must too
+            self._hash = hash(frozenset(self._mapping.items()))
         return self._hash
 
     def replace(self, key, value):
